@@ -18,7 +18,11 @@ var netPool = []string{
 	"2001:db8:0:1::/64", "2001:db8:ffff:ffff:ffff:ffff:ffff:fffe/127",
 }
 
-var badNets = []string{"10.0.0.0/33", "not-a-cidr", "10.1.2.3", "2001:db8::/129", "", "192.0.2.0/-1", "192.0.2.0/2x"}
+var badNets = []string{"10.0.0.0/33", "not-a-cidr", "10.1.2.3", "2001:db8::/129", "", " ", "\t", "192.0.2.0/-1", "192.0.2.0/2x"}
+
+// blankNets are entries a lenient parser might "skip": a list made only of them must not read as
+// the empty list (= every client); like any unparsable entry they invalidate the block.
+var blankNets = []string{"", " ", "  ", "\t"}
 
 func pick[T any](rng *rand.Rand, xs []T) T { return xs[rng.IntN(len(xs))] }
 
@@ -55,7 +59,17 @@ func genPolicy(rng *rand.Rand, kind int) PolicySpec {
 			p.Networks = append(p.Networks, pick(rng, badNets))
 		}
 	case 2:
-		switch rng.IntN(6) {
+		switch rng.IntN(8) {
+		case 6: // nothing but blank entries
+			p.Networks = nil
+			for n := 1 + rng.IntN(3); n > 0; n-- {
+				p.Networks = append(p.Networks, pick(rng, blankNets))
+			}
+		case 7: // a blank entry among valid ones
+			at := rng.IntN(len(p.Networks) + 1)
+			ns := append([]string(nil), p.Networks[:at]...)
+			ns = append(ns, pick(rng, blankNets))
+			p.Networks = append(ns, p.Networks[at:]...)
 		case 0:
 			p.V4 = uint8(33 + rng.IntN(223))
 		case 1:
